@@ -29,6 +29,7 @@ import (
 	"unicode/utf8"
 
 	"berty.tech/go-ipfs-log/internal/vx"
+	"github.com/libp2p/go-libp2p/core/crypto"
 )
 
 // H_STD: engine self-check - the ordinary standard-library facilities a refactoring of the code under test
@@ -320,6 +321,26 @@ func H_STD() {
 		time.Sleep(time.Millisecond)
 		lg := log.New(os.Stderr, "p ", 0)
 		lg.Printf("y")
+	case 10: // the structure of secp256k1 public key encodings (04‖X‖Y, (02|parity)‖X)
+		ids, _ := realIdentities("userA", "userB")
+		pk := ids[0].PublicKey
+		vx.Assert("STD", len(pk) == 65 && pk[0] == 4, "uncompressed key: 65 bytes, prefix 04")
+		comp := append([]byte{0x02 | pk[64]&1}, pk[1:33]...)
+		k, err := crypto.UnmarshalSecp256k1PublicKey(comp)
+		k0, err0 := crypto.UnmarshalSecp256k1PublicKey(pk)
+		vx.Assert("STD", err == nil && err0 == nil && k.Equals(k0), "the re-compressed key is the same key")
+		raw, _ := k0.Raw()
+		vx.Assert("STD", len(raw) == 33 && raw[0] == comp[0] && bytes.Equal(raw[1:], pk[1:33]), "Raw() is prefix and X")
+		other := append([]byte{comp[0] ^ 1}, pk[1:33]...)
+		k2, err2 := crypto.UnmarshalSecp256k1PublicKey(other)
+		vx.Assert("STD", err2 == nil && !k2.Equals(k0), "the other parity is another valid key")
+		_, err3 := crypto.UnmarshalSecp256k1PublicKey(vx.AlterKeyY(pk))
+		vx.Assert("STD", err3 != nil, "X with a wrong Y is not a key")
+		full := append(append([]byte{4}, pk[1:33]...), pk[33:65]...)
+		k4, err4 := crypto.UnmarshalSecp256k1PublicKey(full)
+		vx.Assert("STD", err4 == nil && k4.Equals(k0), "reassembled from its halves")
+		_, err5 := crypto.UnmarshalSecp256k1PublicKey(append([]byte{7}, pk[1:33]...))
+		vx.Assert("STD", err5 != nil, "prefix 07 is not a key")
 	}
 	vx.Cover("std-done")
 }
